@@ -232,6 +232,7 @@ type Frame struct {
 	parent     *Frame
 	lockSnap map[string]string
 	pseudo   bool
+	callSnaps map[string]map[string]string // callee name -> heap right after the latest call
 	heldAtLoop []string
 	retInstr   ssa.Instruction
 }
@@ -247,6 +248,10 @@ func (fr *Frame) clone() *Frame {
 		n.names[k] = v
 	}
 	n.defers = append([]deferred(nil), fr.defers...)
+	n.callSnaps = make(map[string]map[string]string, len(fr.callSnaps))
+	for k, v := range fr.callSnaps {
+		n.callSnaps[k] = v
+	}
 	n.cut = make(map[*ssa.BasicBlock]bool, len(fr.cut))
 	for k, v := range fr.cut {
 		n.cut[k] = v
